@@ -254,8 +254,13 @@ def uni_tables():
             lower.append(c)
     cjk = []
     for lo, hi in CJK_RANGES:
-        cjk.append([c for c in (chr(x) for x in {lo, lo + 1, (lo + hi) // 2, hi - 1, hi})
-                    if unicodedata.category(c) not in ("Cn", "Co", "Cs")])
+        # border and middle code points, plus the first and last ASSIGNED ones that NFKD leaves in place (only those
+        # can still be in the interval when the CJK rule looks at them)
+        live = [x for x in range(lo, hi + 1) if unicodedata.category(chr(x)) not in ("Cn", "Co", "Cs")]
+        stable = [x for x in live if unicodedata.normalize("NFKD", chr(x)) == chr(x)]
+        pick = {lo, lo + 1, (lo + hi) // 2, hi - 1, hi} & set(live)
+        pick |= set(stable[:2] + stable[-2:] + stable[len(stable) // 2:len(stable) // 2 + 1])
+        cjk.append([chr(x) for x in sorted(pick)])
     borders = [chr(x) for lo, hi in CJK_RANGES for x in (lo - 1, hi + 1)
                if not 0xD800 <= x <= 0xDFFF and unicodedata.category(chr(x)) not in ("Cn", "Co", "Cs")]
     _UNI.update(tags=tags, tag_names=sorted(tags), caps=caps, marks=marks, upper=upper, lower=lower,
@@ -294,6 +299,29 @@ def _token(rng) -> str:
     if k == 13:
         return rng.choice(u["borders"]) + " " + rng.choice(rng.choice(u["cjk"]))
     return rng.choice(SPECIALS)
+
+
+def _stable(x: int) -> bool:
+    """a code point (assigned or not) that reaches the CJK rule as itself: NFKD, lower() and the removal of combining
+    marks leave it alone."""
+    if not 0 <= x < 0x110000 or 0xD800 <= x <= 0xDFFF:
+        return False
+    c = chr(x)
+    return unicodedata.normalize("NFKD", c) == c and c.lower() == c and not unicodedata.combining(c) and \
+        len(c.split()) == 1
+
+
+def cjk_border_texts(rng):
+    """for every interval of Electrum's table: its first and last code point that can reach the rule, and the code
+    points just outside, each next to a blank and a certain CJK character, on either side."""
+    out = []
+    for lo, hi in CJK_RANGES:
+        inside = [x for x in range(lo, hi + 1) if _stable(x)]
+        ends = ([inside[0], inside[-1]] if inside else []) + [x for x in (lo - 1, hi + 1) if _stable(x)]
+        for x in ends:
+            blank = rng.choice(BLANKS)
+            out.append(chr(x) + blank + "\u4e2d" if rng.random() < 0.5 else "\u30a2" + blank + chr(x))
+    return out
 
 
 def hostile_text(rng, max_tokens=7) -> str:
@@ -346,6 +374,7 @@ def respell(rng, sentence: str, scheme: str) -> str:
     letters, composed forms).  Both: every kind of blank between and around the words."""
     rev, rev_nfkd = _respellings()
     u = uni_tables()
+    norm = ref_electrum_normalize if scheme == "electrum" else (lambda x: " ".join(unicodedata.normalize("NFKD", x).split()))
     out = []
     for w in sentence.split():
         s = ""
@@ -363,9 +392,11 @@ def respell(rng, sentence: str, scheme: str) -> str:
                 s += ch
         if rng.random() < 0.5:
             s = unicodedata.normalize("NFC", s)
-        out.append(s)
+        out.append(s if norm(s) == norm(w) else w)          # e.g. dotless i, final sigma: upper() is not undone
+    if not out:
+        return sentence
     seps = [rng.choice(BLANKS) for _ in out[1:]] if rng.random() < 0.7 else [rng.choice(BLANKS)] * (len(out) - 1)
     t = out[0] + "".join(a + b for a, b in zip(seps, out[1:]))
     if rng.random() < 0.3:
         t = rng.choice(BLANKS) + t + rng.choice(BLANKS)
-    return t
+    return t if norm(t) == norm(sentence) else sentence
